@@ -41,15 +41,4 @@ RateEnergyUnit == [gallons_gasoline_per_mile |-> "gallons_gasoline", gallons_die
                    kilowatt_hours_per_meter |-> "kilowatt_hours"]
 CreateEnergy(rate, ru, dist, du) == SMul(rate, Convert("distance", du, RateDistanceUnit[ru], dist))
 
-(* model-level sanity of the tables (TLC evaluates these over every pair / triple) *)
-VARIABLE probe
-Pairs == {<<f, a, b>> : f \in Families, a \in UNION {UnitsOf(g) : g \in Families}, b \in UNION {UnitsOf(g) : g \in Families}}
-UInit == probe \in {p \in Pairs : p[2] \in UnitsOf(p[1]) /\ p[3] \in UnitsOf(p[1])}
-UNext == UNCHANGED probe
-One == SInt(1)
-IdentityLaw == probe[2] = probe[3] => Factor(probe[1], probe[2], probe[3]) = One
-RoundTripLaw == SClose(SMul(Factor(probe[1], probe[2], probe[3]), Factor(probe[1], probe[3], probe[2])), One, 20)
-TransitiveLaw == \A c \in UnitsOf(probe[1]) :
-                    SClose(SMul(Factor(probe[1], probe[2], c), Factor(probe[1], c, probe[3])),
-                           Factor(probe[1], probe[2], probe[3]), 20)
 =============================================================================
